@@ -101,6 +101,15 @@ def _frame_types(repo, fn: Fn, call) -> set:
 
 
 def r1(repo, chk):
+    # the builder keeps what it is given: (handler, handler_args) go to the packet that carries the frame, and that packet
+    # is what recovery invokes the handlers of (C08-R2 checks the invocation once per removed packet)
+    sf = Fn(repo, "quic.packet_builder:QuicPacketBuilder.start_frame")
+    apps = [c for c in sf.calls(name="self._packet.delivery_handlers.append")]
+    ok = len(apps) == 1 and norm(apps[0].args[0]).replace(" ", "") == "(handler,handler_args)" and sf.lexical_guards(apps[0], expand=False) == [("handler is not None", True)]
+    chk.ob("R1", "start_frame records (handler, handler_args) on the packet being built whenever a handler is given", ok, "delivery handlers passed by the frame writers are dropped: no lost frame is ever repaired", sf.loc(sf.node))
+    ack_el = [st for st, t, v in sf.assigns(chain="self._packet.is_ack_eliciting") if isinstance(v, ast.Constant) and v.value is True]
+    ok = len(ack_el) == 1 and sf.lexical_guards(ack_el[0], expand=False) == [natom("frame_type not in NON_ACK_ELICITING_FRAME_TYPES")]
+    chk.ob("R1", "start_frame marks the packet ack-eliciting for every frame type outside NON_ACK_ELICITING_FRAME_TYPES (so its loss is detected)", ok, f"{[sf.lexical_guards(s, expand=False) for s in ack_el]}", sf.loc(sf.node))
     sites = []
     for fn in _all_fns(repo):
         if fn.mod.name == "quic.packet_builder":
